@@ -21,6 +21,19 @@ class EmbG(Packet):
 class EmbL(Packet):
     __bisturi__ = {'generate_for_pack': False, 'generate_for_unpack': False}
     sub = Ref(LenL, embed=True)
+class PlaG(Packet):
+    tag = Int(1, default=7)
+    length = Int(1).describe(AutoLength('a')).at(2)
+    a = Data(length)
+class PlaL(Packet):
+    __bisturi__ = {'generate_for_pack': False, 'generate_for_unpack': False}
+    tag = Int(1, default=7)
+    length = Int(1).describe(AutoLength('a')).at(2)
+    a = Data(length)
+class FunA(Packet):
+    __bisturi__ = {'align': 2}
+    x = Int(1).describe(Auto(lambda pkt: pkt.t * 2 + 1))
+    t = Int(1)
 class FunG(Packet):
     x = Int(1).describe(Auto(lambda pkt: pkt.t * 2 + 1))
     t = Int(1)
@@ -33,7 +46,9 @@ class FunL(Packet):
 
 def run(mod, h):
     cls = getattr(mod, h['cls'])
-    islen = h['cls'].startswith(('Len', 'Emb'))
+    islen = h['cls'].startswith(('Len', 'Emb', 'Pla'))
+    placed = h['cls'].startswith('Pla')       # the described field is positioned: tag, one skipped byte, then the field
+    aligned = h['cls'] == 'FunA'              # class-wide alignment 2: x at 0, t at 2
     name = 'length' if islen else 'x'
     p = None
     out = []
@@ -52,7 +67,9 @@ def run(mod, h):
                 p = cls(**kw)
             elif k == 'unpack':
                 # parsed value op[2] for the described field, tracked value op[1]
-                raw = bytes([op[2]]) + (b'q' * op[2] if islen else bytes([op[1]]))
+                raw = bytes([op[2]]) + (b'q' * op[2] if islen else ((b'.' if aligned else b'') + bytes([op[1]])))
+                if placed:
+                    raw = b'\x07.' + raw
                 p = cls.unpack(raw)
             elif k == 'set_tracked':
                 if islen:
@@ -64,7 +81,7 @@ def run(mod, h):
             elif k == 'del':
                 delattr(p, name)
             elif k == 'pack':
-                w = p.pack()[0]
+                w = p.pack()[2 if placed else 0]
             out.append(['ok', getattr(p, name), w, hasattr(p, '__dict__')])
         except Exception as e:
             out.append(['exc', type(e).__name__, str(e)[:80]])
